@@ -15,10 +15,32 @@ open MdkVerif
 
 abbrev Path := List Nat
 
+/-- the fields of the `NostrGroupDataExtension` the model tracks (name / description tokens, the admin
+    set, the relay set as small numbers, the nostr group id as a number: 0 = the id chosen at creation) -/
+structure GData where
+  name : Nat
+  desc : Nat
+  admins : List Nat
+  relays : List Nat
+  nid : Nat
+  deriving DecidableEq, Repr, Inhabited
+
+/-- `NostrGroupDataUpdate`: the argument of `update_group_data`, every field optional -/
+structure DataUpd where
+  name : Option Nat := none
+  desc : Option Nat := none
+  admins : Option (List Nat) := none
+  relays : Option (List Nat) := none
+  nid : Option Nat := none
+  deriving DecidableEq, Repr, Inhabited
+
 inductive Body where
   | selfUpdate
-  | setName (tok : Nat)
-  | removeLeavers (who : List Nat)      -- admin's auto-commit of pending self-removals
+  /-- a GroupContextExtensions commit: it carries the WHOLE new extension (`update_group_context_extensions`
+      replaces the extension; `update_group_data` computes it from the committer's MLS state and the update) -/
+  | setData (d : GData)
+  | removeLeavers (who : List Nat)      -- admin's auto-commit of pending self-removals / `remove_members`
+  | addMembers (who : List Nat)         -- `add_members` (inline Add proposals; the joiners come in by their welcomes)
   deriving DecidableEq, Repr, Inhabited
 
 inductive Kind where
@@ -36,6 +58,8 @@ structure Ev where
   sender : Nat
   path : Path          -- MLS state the message was created in (also identifies the outer key)
   kind : Kind
+  tag : Nat := 0       -- the `h` tag: the nostr group id of the publisher's stored record when the wrapper was built
+                       -- (`build_message_event`); 0 = the id chosen at creation.  Not authenticated: anyone can re-wrap
   deriving DecidableEq, Repr, Inhabited
 
 def baseEpoch : Nat := 1
@@ -64,6 +88,9 @@ structure GState where
   members : List Nat
   admins : List Nat
   name : Nat
+  desc : Nat
+  relays : List Nat                     -- relay set of the extension (sorted, no duplicates)
+  nid : Nat                             -- nostr group id of the extension
   secrets : List (Nat × Path)          -- stored exporter secrets, by epoch NUMBER
   pending : Option Ev                   -- own staged commit
   props : List Nat                      -- queued leave proposals (who)
@@ -72,7 +99,11 @@ structure GState where
   recEpoch : Nat                        -- stored record
   recName : Nat
   recAdmins : List Nat
+  recDesc : Nat
+  recRelays : List Nat                  -- the group_relays table
+  recNid : Nat                          -- the record's nostr_group_id: what incoming `h` tags are looked up by
   last : Option (Nat × Nat)             -- cached last message (mid, msgTs)
+  active : Bool := true                 -- false once a commit removing the own leaf was merged (record state Inactive)
   deriving DecidableEq, Repr, Inhabited
 
 structure Snap where
@@ -104,6 +135,12 @@ def eGroupNotFound := 1
 def eMessage := 2
 def eNonAdmin := 3
 def eGroup := 4
+def eUpdExts := 5      -- Error::UpdateGroupContextExts
+def eSelfUpdate := 6   -- Error::SelfUpdate
+def eOwnLeaf := 7      -- Error::OwnLeafNotFound
+def eExportSecret := 8 -- Error::ExportSecret
+def eMergePending := 10 -- Error::MergePendingCommit
+def eCreateMessage := 11 -- Error::CreateMessage
 def eOther := 9
 
 /-! ### records and rows -/
@@ -141,15 +178,17 @@ def withSecret (c : Cl) : Cl := { c with g := ensureSecret c.g }
 
 /-- `sync_group_metadata_from_mls` -/
 def syncRec (g : GState) : GState :=
-  { g with recEpoch := epochOf g.path, recName := g.name, recAdmins := g.admins }
+  { g with recEpoch := epochOf g.path, recName := g.name, recAdmins := g.admins, recDesc := g.desc,
+           recRelays := g.relays, recNid := g.nid }
 
 /-! ### applying a commit to the symbolic MLS state -/
 
 def applyBody (g : GState) (b : Body) : GState :=
   match b with
   | .selfUpdate => g
-  | .setName t => { g with name := t }
+  | .setData d => { g with name := d.name, desc := d.desc, admins := d.admins, relays := d.relays, nid := d.nid }
   | .removeLeavers who => { g with members := g.members.filter (fun m => !(who.contains m)), admins := g.admins }
+  | .addMembers who => { g with members := g.members ++ who.filter (fun m => !(g.members.contains m)) }
 
 def mergeCommit (maxPast : Nat) (g : GState) (e : Ev) : GState :=
   match e.kind with
@@ -214,6 +253,10 @@ def outerOpens (g : GState) (e : Ev) : Bool :=
      | some p => p == e.path
      | none => false))
 
+/-- `find_group_by_nostr_group_id(h tag)`: with one group held, the group is found iff the tag is the id in the
+    stored record NOW (the id in force) -/
+def routes (c : Cl) (e : Ev) : Bool := c.hasGroup && e.tag == c.g.recNid
+
 def failUnprocessable (c : Cl) (e : Ev) : Cl × Res :=
   (recordFailure c e.n true (some c.g.recEpoch), .unprocessable)
 
@@ -231,6 +274,12 @@ def isPureSelfUpdate (b : Body) (swept : List Nat) : Bool :=
   | .selfUpdate => swept.isEmpty
   | _ => false
 
+/-- the commit removes the receiver's own leaf (by its body or by a swept leave proposal of the receiver) -/
+def removesMe (me : Nat) (b : Body) (swept : List Nat) : Bool :=
+  swept.contains me || (match b with
+                        | .removeLeavers who => who.contains me
+                        | _ => false)
+
 /-- `process_commit` after staging succeeded -/
 def processCommit (c : Cl) (e : Ev) (b : Body) (swept : List Nat) : Cl × Res :=
   if !(isAdmin c.g e.sender || isPureSelfUpdate b swept) then
@@ -239,6 +288,12 @@ def processCommit (c : Cl) (e : Ev) (b : Body) (swept : List Nat) : Cl × Res :=
     let cur := epochOf c.g.path
     let c1 := mgrCreate c cur e
     let g1 := mergeCommit c.maxPast c1.g e
+    if removesMe c.id b swept then
+      -- `handle_local_member_eviction`: the commit IS merged (the MLS group moves on and becomes inactive), but no
+      -- exporter secret is stored and the record is NOT synced: it keeps epoch and data, its state becomes Inactive;
+      -- the dedup record says Processed (not ProcessedCommit) under the record's (old) epoch
+      (setRec { c1 with g := { g1 with active := false } } e.n { state := 1, epoch := some c.g.recEpoch, hasGroup := true, mid := none }, .commit)
+    else
     let g2 := syncRec (ensureSecret g1)
     (setRec { c1 with g := g2 } e.n { state := 2, epoch := some (epochOf g2.path), hasGroup := true, mid := none }, .commit)
 
@@ -284,7 +339,12 @@ def wrongEpochCommit (retry : Cl → Option (Cl × Res)) (c : Cl) (e : Ev) (ee :
 
 /-- steps 1–4 of `process_message` (after the dedup check) -/
 def step1 (retry : Cl → Option (Cl × Res)) (nextEv : Nat) (c : Cl) (e : Ev) : Cl × Res :=
-  if !c.hasGroup then (recordFailure c e.n false none, .err eGroupNotFound)
+  -- `decrypt_message`: the group is looked up by the `h` tag; not found → GroupNotFound, and the failure record has
+  -- neither group id nor epoch (so a later rollback never makes it Retryable)
+  if !(routes c e) then (recordFailure c e.n false none, .err eGroupNotFound)
+  -- an evicted member: `try_decrypt_with_recent_epochs` starts with `exporter_secret()?` of the CURRENT MLS epoch, which an
+  -- inactive group cannot export: every routed event fails here (the failure record carries the group id, no epoch)
+  else if !c.g.active then (recordFailure c e.n true none, .err eExportSecret)
   else
     -- `exporter_secret()` stores the current secret as a side effect of trying it
     let c := withSecret c
@@ -318,7 +378,7 @@ def step1 (retry : Cl → Option (Cl × Res)) (nextEv : Nat) (c : Cl) (e : Ev) :
           if isAdmin c.g c.id then
             -- auto-commit: the receiver stages a commit removing the leaver (and whatever else is queued)
             let who := (e.sender :: g1.props).eraseDups
-            let ne : Ev := { n := nextEv, ts := 0, idnum := 0, cipher := nextEv, sender := c.id, path := g1.path, kind := .commit (.removeLeavers who) [] }
+            let ne : Ev := { n := nextEv, ts := 0, idnum := 0, cipher := nextEv, sender := c.id, path := g1.path, kind := .commit (.removeLeavers who) [], tag := g1.recNid }
             let g2 := ensureSecret { g1 with props := who, pending := some ne }
             (setRec { c with g := g2 } e.n { state := 1, epoch := some cur, hasGroup := true, mid := none }, .proposalCommitted ne)
           else
@@ -336,7 +396,8 @@ def deliverOnce (retry : Cl → Option (Cl × Res)) (nextEv : Nat) (c : Cl) (e :
   match getRec c e.n with
   | some r =>
     if r.state == 3 || r.state == 4 then
-      (c, if c.hasGroup then .unprocessable else .previouslyFailed)
+      -- `extract_mls_group_id_from_event`: the same lookup by tag decides between Unprocessable and PreviouslyFailed
+      (c, if routes c e then .unprocessable else .previouslyFailed)
     else step1 retry nextEv c e
   | none => step1 retry nextEv c e
 
@@ -353,39 +414,123 @@ def deliver (c : Cl) (e : Ev) (nextEv : Nat) : Cl × Res := deliverN 3 nextEv c 
 /-- `create_message` -/
 def send (c : Cl) (n ts idnum mid msgTs tok : Nat) : Cl × Res :=
   if !c.hasGroup then (c, .err eGroup)
+  else if !c.g.active then (c, .err eOwnLeaf)       -- evicted: `own_leaf().ok_or(OwnLeafNotFound)`
+  -- openmls refuses to create an application message while proposals are queued in the own store (a received leave
+  -- proposal that no admin has committed yet, or the own one)
+  else if !c.g.props.isEmpty then (c, .err eCreateMessage)
   else
     -- openmls `create_message` works with a staged commit pending (observed; it refuses only an
     -- inactive group); the message belongs to the current, pre-commit epoch
     let g := ensureSecret c.g
     let cur := epochOf g.path
-    let e : Ev := { n := n, ts := ts, idnum := idnum, cipher := n, sender := c.id, path := g.path, kind := .app mid msgTs tok }
+    let e : Ev := { n := n, ts := ts, idnum := idnum, cipher := n, sender := c.id, path := g.path, kind := .app mid msgTs tok, tag := g.recNid }
     let row : MsgRow := { mid := mid, author := c.id, state := 0, epoch := cur, wrapper := n, msgTs := msgTs, tok := tok }
     let c1 := { c with g := updLast g mid msgTs, msgs := upsertRow row c.msgs }
     (setRec c1 n { state := 0, epoch := some cur, hasGroup := true, mid := some mid }, .ev e)
 
-/-- `self_update` / `update_group_data(name)`: stage a commit (it sweeps the queued proposals: openmls
-    commit builders consume the proposal store) and publish it -/
+/-- the error kind openmls' refusal of a second pending commit surfaces as, per operation -/
+def pendingErr : Body → Nat
+  | .selfUpdate => eSelfUpdate          -- `self_update_with_new_signer(..)?`
+  | .setData _ => eUpdExts              -- `update_group_context_extensions(..)?`
+  | .removeLeavers _ => eGroup          -- `remove_members(..).map_err(Error::Group)`
+  | .addMembers _ => eGroup             -- `add_members(..).map_err(Error::Group)`
+
+/-- `self_update` / `update_group_data` / `remove_members` after their argument checks: the admin check
+    (`is_leaf_node_admin` of the own leaf against the MLS state), then stage a commit (it sweeps the queued
+    proposals: openmls commit builders consume the proposal store) and publish it -/
 def stageCommit (c : Cl) (n ts idnum : Nat) (b : Body) (needAdmin : Bool) : Cl × Res :=
   if !c.hasGroup then (c, .err eGroup)
+  else if !c.g.active then (c, .err eOwnLeaf)       -- evicted: `load_mls_signer` / `own_leaf().ok_or(OwnLeafNotFound)`
   else if needAdmin && !(isAdmin c.g c.id) then (c, .err eGroup)
-  else if c.g.pending.isSome then (c, .err eOther)
+  else if c.g.pending.isSome then (c, .err (pendingErr b))
   else
     let g := ensureSecret c.g
-    let e : Ev := { n := n, ts := ts, idnum := idnum, cipher := n, sender := c.id, path := g.path, kind := .commit b g.props }
+    let e : Ev := { n := n, ts := ts, idnum := idnum, cipher := n, sender := c.id, path := g.path, kind := .commit b g.props, tag := g.recNid }
     let c1 := { c with g := { g with pending := some e } }
     (setRec c1 n { state := 2, epoch := some (epochOf g.path), hasGroup := true, mid := none }, .ev e)
+
+/-- insertion into a sorted duplicate-free list (`BTreeSet::insert`) -/
+def insertNat (x : Nat) : List Nat → List Nat
+  | [] => [x]
+  | y :: ys => if x < y then x :: y :: ys else if x = y then y :: ys else y :: insertNat x ys
+
+/-- `iter().collect::<BTreeSet<_>>()` -/
+def canonSet (l : List Nat) : List Nat := l.foldr insertNat []
+
+/-- the extension value of an MLS state -/
+def dataOf (g : GState) : GData :=
+  { name := g.name, desc := g.desc, admins := g.admins, relays := g.relays, nid := g.nid }
+
+/-- `update_group_data`: the fields that are specified replace the current ones -/
+def applyUpd (d : GData) (u : DataUpd) : GData :=
+  { name := u.name.getD d.name, desc := u.desc.getD d.desc,
+    admins := (u.admins.map canonSet).getD d.admins,
+    relays := (u.relays.map canonSet).getD d.relays, nid := u.nid.getD d.nid }
+
+/-- `validate_admin_update`: not empty, all of them current members (of the MLS state; queued removals
+    are not looked at) -/
+def adminUpdateOk (g : GState) (a : List Nat) : Bool := !a.isEmpty && a.all (fun x => g.members.contains x)
+
+/-- the admin list of an update is present and refused by `validate_admin_update` -/
+def adminsArgBad (g : GState) (u : DataUpd) : Bool :=
+  match u.admins with
+  | some a => !(adminUpdateOk g a)
+  | none => false
+
+/-- `update_group_data`: the new admin set is validated FIRST (before the caller's own admin check, so a
+    non-admin caller with a bad list is told about the list), then `update_group_data_extension` -/
+def updateData (c : Cl) (n ts idnum : Nat) (u : DataUpd) : Cl × Res :=
+  if !c.hasGroup then (c, .err eGroup)
+  else if adminsArgBad c.g u then (c, .err eUpdExts)
+  else stageCommit c n ts idnum (.setData (applyUpd (dataOf c.g) u)) true
+
+/-- `remove_members`: own leaf, admin check, then "No matching members found to remove"; the commit names the
+    members that matched -/
+def removeMembers (c : Cl) (n ts idnum : Nat) (who : List Nat) : Cl × Res :=
+  if !c.hasGroup then (c, .err eGroup)
+  else if !c.g.active then (c, .err eOwnLeaf)
+  else if !(isAdmin c.g c.id) then (c, .err eGroup)
+  else if (who.filter (fun m => c.g.members.contains m)).isEmpty then (c, .err eGroup)
+  else stageCommit c n ts idnum (.removeLeavers (who.filter (fun m => c.g.members.contains m))) true
+
+/-- `add_members`: own leaf, admin check, "At least one relay is required to invite members" (the STORED relay
+    table), openmls refuses a key package of somebody who is a member already -/
+def addMembers (c : Cl) (n ts idnum : Nat) (who : List Nat) : Cl × Res :=
+  if !c.hasGroup then (c, .err eGroup)
+  else if !c.g.active then (c, .err eOwnLeaf)
+  else if !(isAdmin c.g c.id) then (c, .err eGroup)
+  else if c.g.recRelays.isEmpty then (c, .err eGroup)
+  else if who.any (fun m => c.g.members.contains m) then (c, .err eGroup)
+  else stageCommit c n ts idnum (.addMembers who) true
+
+/-- what a welcome gives the joiner (`process_welcome` + `accept_welcome`): the inviter's post-commit state and a
+    record in step with it — no exporter secret stored yet, no past epochs, nothing queued or consumed -/
+def joinState (g : GState) : GState :=
+  { g with secrets := [], pending := none, props := [], consumed := [], past := [], last := none, active := true }
+
+/-- the state the add commit `e` (staged on the inviter's state `g`) leads to -/
+def welcomeState (maxPast : Nat) (g : GState) (e : Ev) : GState := joinState (syncRec (mergeCommit maxPast g e))
+
+/-- a client that holds no group accepts the welcome: dedup records and configuration stay (a welcome for a group
+    the client holds already is the business of C16's model, not of this one: no-op here) -/
+def join (c : Cl) (g : GState) : Cl := if c.hasGroup then c else { c with hasGroup := true, g := g, mgr := [] }
 
 /-- `leave_group` -/
 def leave (c : Cl) (n ts idnum : Nat) : Cl × Res :=
   if !c.hasGroup then (c, .err eGroup)
+  else if !c.g.active then (c, .err eOwnLeaf)
+  else if c.g.pending.isSome then (c, .err eGroup)  -- openmls refuses while a commit is pending (`map_err(Error::Group)`)
   else
-    let g := ensureSecret c.g
-    let e : Ev := { n := n, ts := ts, idnum := idnum, cipher := n, sender := c.id, path := g.path, kind := .leave }
+    -- openmls queues the own Remove proposal in the own proposal store as well
+    let g0 := ensureSecret c.g
+    let g := { g0 with props := (c.id :: g0.props).eraseDups }
+    let e : Ev := { n := n, ts := ts, idnum := idnum, cipher := n, sender := c.id, path := g.path, kind := .leave, tag := g.recNid }
     (setRec { c with g := g } n { state := 2, epoch := some (epochOf g.path), hasGroup := true, mid := none }, .ev e)
 
 /-- `merge_pending_commit` (no snapshot is taken here) -/
 def merge (c : Cl) : Cl × Res :=
   if !c.hasGroup then (c, .err eGroup)
+  else if !c.g.active then (c, .err eMergePending)  -- openmls refuses to merge on an inactive group
   else
     match c.g.pending with
     | some p => ({ c with g := syncRec (mergeCommit c.maxPast c.g p) }, .ok)
@@ -398,8 +543,12 @@ def clear (c : Cl) : Cl × Res :=
 def restart (c : Cl) : Cl × Res :=
   if c.persistent then ({ c with mgr := c.mgr.map (fun s => { s with ts := 0 }) }, .ok) else (c, .skip)
 
+/-- the extension `create_group` writes: description token 0, relays `[1]`, nostr group id 0 -/
+def initData (admins : List Nat) (name : Nat) : GData := { name := name, desc := 0, admins := admins, relays := [1], nid := 0 }
+
+/-- the state `create_group` / the welcome leaves -/
 def initG (members admins : List Nat) (name : Nat) : GState :=
-  { path := [], members := members, admins := admins, name := name, secrets := [], pending := none, props := [], consumed := [], past := [], recEpoch := baseEpoch, recName := name, recAdmins := admins, last := none }
+  { path := [], members := members, admins := admins, name := name, desc := 0, relays := [1], nid := 0, secrets := [], pending := none, props := [], consumed := [], past := [], recEpoch := baseEpoch, recName := name, recAdmins := admins, recDesc := 0, recRelays := [1], recNid := 0, last := none }
 
 def initCl (id : Nat) (persistent : Bool) (retention : Nat) (members admins : List Nat) (name : Nat) : Cl :=
   { id := id, persistent := persistent, retention := retention, maxPast := 5, hasGroup := true, g := initG members admins name, msgs := [], recs := [], mgr := [] }
